@@ -333,11 +333,18 @@ def have_aesni():
         return False
 
 
+# black-box mode of h_aes.c (notes/blackbox.md): crypto_aesctr.c / crypto_aes_aesni.c as separate units, public calls only, no
+# process per case (the harness never reset library state); `seek` stores into the private struct crypto_aesctr: the gen_far
+# cases (counter carries at 2^24 .. 2^59 blocks) are not run in that mode
+BB_SKIP = ("seek",)
+
+
 def components(ctx):
     comps = [
         vlib.Component("aes-sw", "h_aes.c", SRCS_SW, ["aes"], gen_aes, nontrivial=nontrivial,
                        rule="software path (cpu=[]: OpenSSL AES_encrypt, portable CTR loop): " + RULE,
-                       classify=classify, cpu=[], ldflags=["-lcrypto"]),
+                       classify=classify, cpu=[], ldflags=["-lcrypto"],
+                       bb_ok=True, bb_srcs=["crypto/crypto_aesctr.c"], bb_skip_ops=BB_SKIP),
     ]
     if have_aesni():
         comps.append(
@@ -345,7 +352,8 @@ def components(ctx):
                            lambda rng, tier, mult: gen_aes(rng, tier, mult, hw=True), nontrivial=nontrivial,
                            rule="AES-NI path (default cpu list: crypto_aes_aesni.c, crypto_aesctr_aesni.c bulk loop; "
                                 "round keys printed as L2): same generator",
-                           classify=classify, extra=["-DH_AES_RK"], ldflags=["-lcrypto"]))
+                           classify=classify, extra=["-DH_AES_RK"], ldflags=["-lcrypto"],
+                           bb_ok=True, bb_srcs=["crypto/crypto_aesctr.c", "crypto/crypto_aes_aesni.c"], bb_skip_ops=BB_SKIP))
     return comps
 
 
